@@ -54,6 +54,17 @@ Theorem agreeing_kinds_now :
 Proof. vm_compute. reflexivity. Qed.
 Print Assumptions agreeing_kinds_now.
 
+(* short-float and byte are the types they are Go aliases of, for typep and for subtypep alike (findings
+   C16-short-float-is-single-float and C16-byte-is-octet, repaired by C16-6) *)
+Theorem alias_types_now :
+  typep_t kinds "single-float" "short-float" = true /\ typep_t kinds "single-float" "SHORT-FLOAT" = true /\
+  typep_t kinds "double-float" "short-float" = false /\ typep_t kinds "fixnum" "byte" = false /\
+  subtypep_t classes "single-float" "short-float" = true /\ subtypep_t classes "short-float" "single-float" = true /\
+  subtypep_t classes "short-float" "float" = true /\ subtypep_t classes "byte" "octet" = true /\
+  subtypep_t classes "octet" "byte" = true /\ subtypep_t classes "fixnum" "byte" = false.
+Proof. vm_compute. repeat split; reflexivity. Qed.
+Print Assumptions alias_types_now.
+
 (* outside that guard: t is a type of every object but not a class; list is the type-of of a list but not a
    class, so subtypep is not even reflexive on it (known findings) *)
 Theorem typep_subtypep_t_refuted :
